@@ -136,7 +136,9 @@ func Descendants(gs []*G, root int64) []*G {
 func parked(state string) bool {
 	switch state {
 	case "chan send", "chan receive", "select", "sync.Mutex.Lock", "sync.RWMutex.Lock", "sync.RWMutex.RLock",
-		"semacquire", "sync.WaitGroup.Wait", "sync.Cond.Wait", "chan send (nil chan)", "chan receive (nil chan)", "select (no cases)":
+		"sync.WaitGroup.Wait", "sync.Cond.Wait", "chan send (nil chan)", "chan receive (nil chan)", "select (no cases)":
+		// "semacquire" is deliberately absent: it is the state of runtime-internal waits
+		// (stop-the-world for a stack dump or the GC, allocation), not of a sync primitive
 		return true
 	}
 	return false
@@ -170,4 +172,33 @@ func BlockedInGribigo(gs []*G, roots ...int64) string {
 	}
 	sort.Strings(sigs)
 	return strings.Join(sigs, "+")
+}
+
+// Busy reports whether a goroutine of the watched call - a descendant of one of the roots,
+// the roots' own goroutines excepted when they are the caller - can still make progress:
+// it is running, runnable, in a system call, sleeping or in a runtime-internal wait.
+func Busy(gs []*G, roots ...int64) bool {
+	cur := CurGID()
+	for _, r := range roots {
+		for _, g := range Descendants(gs, r) {
+			if g.ID == cur {
+				continue
+			}
+			if !parked(g.State) {
+				return true
+			}
+		}
+	}
+	return false
+}
+
+// AnyBusyInGribigo reports whether any goroutine that has a gribigo frame can make progress.
+func AnyBusyInGribigo(gs []*G) bool {
+	cur := CurGID()
+	for _, g := range gs {
+		if g.ID != cur && !parked(g.State) && g.Has("github.com/openconfig/gribigo/") {
+			return true
+		}
+	}
+	return false
 }
